@@ -1499,4 +1499,105 @@ def Txn.inert (x : Txn) : Bool :=
   | .update => x.outcome != .ok && !x.prog.contains .commit
   | .manualRW => !x.prog.contains .commit
 
+/-! ### concurrent `Batch` callers -/
+
+/-- what one `Batch` caller does, spelled out. -/
+def batchCallSpec (db : DB) (c : BatchCall) : DB × Result :=
+  if isBucket db c.p then
+    match put db c.p c.k c.v with
+    | .ok d =>
+      match c.o with
+      | .ok => (d, .ok)
+      | .err => (db, .err .user)
+      | .panic => (db, .panic)
+    | .error e => (db, .err e)
+  else (db, .err .user)
+
+theorem batchCall_eq (db : DB) (c : BatchCall) : batchCall db c = batchCallSpec db c := by
+  unfold batchCall batchCallSpec
+  simp only [step]
+  have hg : ((Kind.batch.begin db).noteHandle c.p).guardW c.p false =
+      if isBucket db c.p then none else some .noBucket := by
+    unfold Tx.guardW
+    simp only [noteHandle_closed, noteHandle_work, noteHandle_writable, begin_closed, begin_work, begin_writable,
+      Kind.writable]
+    cases isBucket db c.p <;> simp
+  rw [hg]
+  cases hb : isBucket db c.p
+  · simp
+  · simp only [if_true, noteHandle_work, begin_work]
+    cases hp : put db c.p c.k c.v with
+    | error e => simp [Tx.applyW]
+    | ok d =>
+      simp only [Tx.applyW]
+      cases c.o <;> simp [finishUpdate]
+
+/-- why a `Put` is refused, as a function of what the key currently holds. -/
+def putErr (k v : Bytes) (cur : Option Entry) : Option Err :=
+  if k.length = 0 then some .keyRequired
+  else if k.length > maxKeySize then some .keyTooLarge
+  else if v.length > maxValueSize then some .valueTooLarge
+  else match cur with
+    | some (.bucket _) => some .incompatibleValue
+    | _ => none
+
+theorem put_eq (d : DB) (p : Path) (k v : Bytes) :
+    put d p k v = match putErr k v d[p ++ [k]]? with
+      | some e => .error e
+      | none => .ok (d.insert (p ++ [k]) (.val v)) := by
+  unfold put putErr
+  repeat' split
+  all_goals simp_all
+
+theorem putErr_none_not_bucket {k v : Bytes} {cur : Option Entry} (h : putErr k v cur = none) :
+    ∀ s, cur ≠ some (.bucket s) := by
+  intro s hs
+  subst hs
+  unfold putErr at h
+  repeat' split at h
+  all_goals simp_all
+
+theorem insert_comm (d : DB) (a b : Path) (x y : Entry) (h : a ≠ b) :
+    (d.insert a x).insert b y = (d.insert b y).insert a x := by
+  apply ExtTreeMap.ext_getElem?
+  intro q
+  simp only [get_insert]
+  by_cases h1 : b = q <;> by_cases h2 : a = q <;> simp [h1, h2]
+  exact absurd (h2.trans h1.symm) h
+
+
+/-- two `Batch` callers writing different entries: each gets what it would get alone, and the final database does not
+depend on who ran first — so the answer to a group of concurrent callers is independent of bbolt's coalescing. -/
+theorem batchCall_commute (db : DB) (c₁ c₂ : BatchCall) (hne : c₁.p ++ [c₁.k] ≠ c₂.p ++ [c₂.k]) :
+    (batchCall (batchCall db c₁).1 c₂).2 = (batchCall db c₂).2 ∧
+    (batchCall (batchCall db c₂).1 c₁).2 = (batchCall db c₁).2 ∧
+    (batchCall (batchCall db c₁).1 c₂).1 = (batchCall (batchCall db c₂).1 c₁).1 := by
+  -- after a successful put of `a` the other caller's view of its own bucket and entry is unchanged
+  have key : ∀ (a b : BatchCall), a.p ++ [a.k] ≠ b.p ++ [b.k] → putErr a.k a.v db[a.p ++ [a.k]]? = none →
+      isBucket (db.insert (a.p ++ [a.k]) (.val a.v)) b.p = isBucket db b.p ∧
+      (db.insert (a.p ++ [a.k]) (.val a.v))[b.p ++ [b.k]]? = db[b.p ++ [b.k]]? := by
+    intro a b hab ha
+    refine ⟨?_, by rw [get_insert, if_neg hab]⟩
+    cases hb : b.p with
+    | nil => rfl
+    | cons x r =>
+      simp only [isBucket, get_insert]
+      by_cases e : a.p ++ [a.k] = x :: r
+      · rw [if_pos e]
+        have := putErr_none_not_bucket ha
+        rw [e] at this
+        cases hd : db[x :: r]? with
+        | none => rfl
+        | some en =>
+          cases en with
+          | val _ => rfl
+          | bucket s => exact absurd hd (this s)
+      · rw [if_neg e]
+  simp only [batchCall_eq, batchCallSpec, put_eq]
+  cases h1 : isBucket db c₁.p <;> cases h2 : isBucket db c₂.p <;>
+    cases e1 : putErr c₁.k c₁.v db[c₁.p ++ [c₁.k]]? <;> cases e2 : putErr c₂.k c₂.v db[c₂.p ++ [c₂.k]]? <;>
+    cases o1 : c₁.o <;> cases o2 : c₂.o <;>
+    simp [h1, h2, e1, e2, (key c₁ c₂ hne), (key c₂ c₁ (Ne.symm hne)), insert_comm _ _ _ _ _ hne] <;>
+    simp_all [(key c₁ c₂ hne), (key c₂ c₁ (Ne.symm hne)), insert_comm _ _ _ _ _ hne]
+
 end KV
